@@ -173,7 +173,7 @@ func init() {
 			"a third of the deeper filters are written with the fewest parentheses precedence allows (not > and > or; scripted three- to five-atom chains mixing and / or among them), in-lists have 16-24 elements now and then, integers inside maps are stored as int32 as often as int64. " +
 			"Every filter is answered by an independent reference evaluator and by the engine through QueryIds (canonical and re-spelled text), IterateIds, and QueryWithCursorC over an index-driven cursor provider (IteratorMatchingAnyOf); differing id sets, " +
 			"or a rejected / panicking well-typed filter, are violations. A fifth path evaluates the text with package ast alone over an in-memory ast.Symbols; every fourth case queries the owners / others stores (3-4 hop dotted paths); every fifth case writes the dataset and runs all its queries inside one write transaction (uncommitted data); every seventh queries through a plain child store layered on the things store (half of the things have child data). Cases the statement leaves open are executed but not judged. non-trivial = distinct (filter, dataset) whose answer is neither empty nor everything",
-		Assumptions: []string{"semantics not fixed by the statement are not judged: count/isEmpty over dotted paths, ordering of a string symbol against a number literal, map elements whose stored type differs from the literal's, icontains over non-ASCII, bare bool symbols holding null"},
+		Assumptions: []string{"count / isEmpty over a dotted path count the elements of its stacked cursor (one per related entity and value, the reading C14 holds the cursor to); semantics not fixed by the statement are not judged: ordering of a string symbol against a number literal, map elements whose stored type differs from the literal's, icontains over non-ASCII, bare bool symbols holding null"},
 		Plan: func(tier core.Tier, seed int64) int {
 			if tier == core.Thorough {
 				return 40000
